@@ -259,6 +259,29 @@ def check_node(p, node, col, feats):
                           f"node {path} ({mat.expr(spec_n, None)}) with structured members given as instances holding wire values: "
                           f"library {describe(lib)}; rebuilt from member routines {describe(ref)}",
                           bucket=f"member-instances|{spec_n['k']}|{diff_bucket(lib[1], ref[1]) if lib[0] == ref[0] == 'ok' else lib[0] + '/' + ref[0]}"[:90])
+    # ---- mapping keys that compare (and hash) equal across classes, in one pairs input and as mappings one after the other
+    if spec_n["k"] == "dict" and isinstance(wire, dict) and wire:
+        import decimal as _dec
+        w0 = next(iter(wire.values()))
+        groups = [[True, 1, 1.0, _dec.Decimal("1.0"), _dec.Decimal("1.00"), "1"], [0, False, 0.0, _dec.Decimal("0"), _dec.Decimal("-0.0")],
+                  [2.0, 2, _dec.Decimal("2.00")]]
+        for keys_ in groups:
+            inputs_ = [("pairs", [(k_, w0) for k_ in keys_])] + [("mapping", {k_: w0}) for k_ in keys_]
+            tl.clear_all()
+            libs = [outcome(tl.unmarshal, T_n, x_) for _, x_ in inputs_]
+            tl.clear_all()
+            refs_ = [outcome(rebuild_unmarshal, spec_n, x_, mat) for _, x_ in inputs_]
+            for (shape_, x_), lib, ref in zip(inputs_, libs, refs_):
+                col.ev()
+                col.label("equal-keys-of-different-classes")
+                if nontriv:
+                    col.nt(p.key + path + "eqkeys" + repr(x_)[:80])
+                if not same_outcome(lib, ref):
+                    col.violation("unmarshal-equals-rebuild", dict(case_base, direction="unmarshal", equal_keys=repr(keys_)),
+                                  f"node {path} ({mat.expr(spec_n, None)}) given {shape_} with the keys {x_ if shape_ == 'mapping' else keys_!r:.120}: "
+                                  f"library {describe(lib)}; rebuilt from member routines {describe(ref)}",
+                                  bucket=f"equal-keys|{shape_}|{lib[0]}/{ref[0]}")
+                    break
     # ---- exception parity: corrupt exactly one direct member -------------------------------------
     if isinstance(wire, (list, dict)) and wire:
         junk_src = p.draw(st.sampled_from(JUNK_MEMBER))
